@@ -59,6 +59,7 @@ def run(idx: ProgramIndex, rep: Report, tier: str):
     rep.floor("C04-5", "stores of old ++ new on the copy", len([o for o in rep.obligations if o.rule == "C04-5"]), 4)
     strategy_blocks(idx, rep)
     likelihood_copies(idx, rep)
+    fantasy_noise_forwarded(idx, rep)
     rep.rule("C04-6", "the caches carried into the fantasy strategy do not depend on detach_test_caches (branches differ by .detach() only)")
     from .c03 import detach_neutral
     detach_neutral(idx, rep, rule="C04-6", only_functions={"get_fantasy_strategy", "get_fantasy_model"}, floor=1)
@@ -647,3 +648,40 @@ def residual_layout(idx: ProgramIndex, rep: Report):
                         "targets, fantasy mean and cross term are combined in one layout" if ok else
                         "`%s` subtracts the flat (points x tasks) cross term from (.., m, t)-shaped targets / fantasy mean: the shapes broadcast only for a single fantasy point" % " ".join(src(st.value).split())[:60], {})
     rep.floor("C04-8", "multitask residuals of the bordered system", n, 1)
+
+
+# ---- C04-9 ---------------------------------------------------------------------------------------------------------
+def fantasy_noise_forwarded(idx: ProgramIndex, rep: Report):
+    """get_fantasy_strategy(..., **kwargs) receives the observation noise of the new points in kwargs and turns it into the fantasy
+    likelihood (which then stores old ++ new noise).  Whenever the update itself asks that likelihood for the noise of the *new* points
+    only - a call on the fantasy likelihood or on one of its attributes - it has to forward **kwargs: a fixed-noise model cannot know
+    the noise of m new points from its n + m stored values."""
+    rep.rule("C04-9", "inside get_fantasy_strategy every evaluation of the fantasy likelihood (the noise of the new points) forwards **kwargs")
+    n = 0
+    for cls in idx.package_classes():
+        fi = cls.methods.get("get_fantasy_strategy")
+        if fi is None:
+            continue
+        kwn = fi.node.args.kwarg.arg if fi.node.args.kwarg else None
+        liks = {a.targets[0].id for a in ast.walk(fi.node) if isinstance(a, ast.Assign) and len(a.targets) == 1 and isinstance(a.targets[0], ast.Name)
+                and isinstance(a.value, ast.Call) and isinstance(a.value.func, ast.Attribute) and a.value.func.attr == "get_fantasy_likelihood"}
+        for c in calls_in(fi.node):
+            recv = c.func
+            base = recv
+            while isinstance(base, ast.Attribute):
+                base = base.value
+            if not (isinstance(base, ast.Name) and base.id in liks):
+                continue
+            if isinstance(recv, ast.Attribute) and recv.attr in ("train", "eval", "to", "double", "float", "named_parameters", "parameters", "get_fantasy_likelihood"):
+                continue
+            n += 1
+            fw = kwn is not None and any(k.arg is None and isinstance(k.value, ast.Name) and k.value.id == kwn for k in c.keywords)
+            import copy as _copy
+            anon = _copy.deepcopy(c.func)
+            for x in ast.walk(anon):
+                if isinstance(x, ast.Name):
+                    x.id = "_"
+            rep.add("C04-9", "%s:%s.get_fantasy_strategy[%s(...)]" % (cls.module.name, cls.qualname, src(anon)), "%s:%d" % (fi.module.relpath, c.lineno), fw,
+                    "the noise keywords are forwarded" if fw else
+                    "`%s` evaluates the fantasy likelihood for the new points without **%s: a FixedNoiseGaussianLikelihood then compares the m new points with its n + m stored noises and returns a zero operator (the update raises / uses no noise)" % (" ".join(src(c).split())[:70], kwn or "kwargs"), {})
+    rep.floor("C04-9", "evaluations of the fantasy likelihood inside get_fantasy_strategy", n, 2)
